@@ -1,6 +1,7 @@
 package main
 
 import (
+	"go/token"
 	"fmt"
 	"go/types"
 	"sort"
@@ -91,9 +92,10 @@ func carriedCells(lit *ssa.Function) map[string]ssa.Instruction {
 }
 
 func checkC06(c *Ctx, r *Report) {
-	r.Explain = "Decides structural necessary conditions of replication convergence (the property as a whole — two databases, a wire protocol and every interleaving — is not decidable from the shape of the code): (R1) conflict resolution is idempotent across compare-and-swap retries: in the write callbacks that run a conflict resolver, no captured variable carries a value written by one attempt into the next attempt (written in the callback and read before it is written), and the incoming revision's version vector — an object captured from outside the callback — never has its current version overwritten in place (resolution builds the merged vector on a Copy); otherwise a retry resolves the conflict against the product of the previous attempt and the peers keep different winners; (R2) on the pulling side a revision's sequence is reported to the checkpointer as processed only on the success edge of the local write, so a revision whose write failed is fetched again after a restart; (R3) on the pushing side a sequence is reported as processed only after the peer's answer to that revision has been received. Not decided: that both sides pick the same winner, that the resolved revision reaches the other side, push revisions the peer rejects (they are counted and, by design, not retried), tombstone/edit and equal-generation ties, that a caught-up replication transfers nothing, heap-mediated aliasing beyond parameters and captured variables."
+	r.Explain = "Decides structural necessary conditions of replication convergence (the property as a whole — two databases, a wire protocol and every interleaving — is not decidable from the shape of the code): (R1) conflict resolution is idempotent across compare-and-swap retries: in the write callbacks that run a conflict resolver, no captured variable carries a value written by one attempt into the next attempt (written in the callback and read before it is written), and the incoming revision's version vector — an object captured from outside the callback — never has its current version overwritten in place (resolution builds the merged vector on a Copy); otherwise a retry resolves the conflict against the product of the previous attempt and the peers keep different winners; (R2) on the pulling side a revision's sequence is reported to the checkpointer as processed only on the success edge of the local write, so a revision whose write failed is fetched again after a restart; (R3) on the pushing side a sequence is reported as processed only after the peer's answer to that revision has been received; (R4) after a local-wins resolution (current version kept, history rewritten) both the resolving node and, through the mutation feed, every other node drop the revision-cache entry keyed by that version. Not decided: that both sides pick the same winner, that the resolved revision reaches the other side, push revisions the peer rejects (they are counted and, by design, not retried), tombstone/edit and equal-generation ties, that a caught-up replication transfers nothing, heap-mediated aliasing beyond parameters and captured variables."
 	c06R1(c, r)
 	c06R2R3(c, r)
+	c06R4(c, r)
 }
 
 func c06R1(c *Ctx, r *Report) {
@@ -443,4 +445,90 @@ func c06R3For(c *Ctx, r *Report, rule string) {
 	if n == 0 {
 		r.Fail(rule, "fn=sendRevisionWithProperties processed-callback", c.Pos(sr.Pos()), "push processed callback not found")
 	}
+}
+
+// C06-R4: a local-wins conflict resolution keeps the document's current version but rewrites its version-vector history. The node
+// that resolves removes its own revision-cache entry for that version; every other node learns of it from the mutation feed
+// (flag UnchangedCV) and must drop the entry keyed by the current version too — otherwise it keeps serving (and pushing) the
+// pre-resolution revision, the peer answers with a conflict and the two databases stay different.
+func c06R4(c *Ctx, r *Report) {
+	r.Rule("C06-R4", "E2 pathrules + def-use (sibling agreement)", "both the resolving node (resolveLocalWinsHLV) and the mutation feed (DocChanged, on the UnchangedCV edge) remove the revision-cache entry keyed by the document's current version", 2)
+	isCVKey := func(v ssa.Value) bool {
+		return DependsOn(v, func(x ssa.Value) bool {
+			cc, ok := x.(*ssa.Call)
+			if !ok {
+				return false
+			}
+			n := c.CalleeName(cc)
+			return n == "(db.Version).String" || n == "(*db.Version).String" || strings.HasSuffix(n, ".GetCurrentVersionString") || strings.HasSuffix(n, ").CV")
+		})
+	}
+	removes := func(fn *ssa.Function) []ssa.CallInstruction {
+		var out []ssa.CallInstruction
+		for _, call := range c.Calls(fn, false, func(n string) bool { return strings.HasSuffix(n, "evisionCache).Remove") || strings.HasSuffix(n, "RevisionCache).Remove") || strings.HasSuffix(n, ".RemoveWithCV") }) {
+			a := call.Common().Args
+			if len(a) > 0 && isCVKey(a[len(a)-1]) {
+				out = append(out, call)
+			}
+		}
+		return out
+	}
+	// resolving node
+	if fn := c.Func("(*db.DatabaseCollectionWithUser).resolveLocalWinsHLV"); fn == nil {
+		r.Fail("C06-R4", "anchor resolveLocalWinsHLV", "-", "function not found")
+	} else {
+		r.Check("C06-R4", "fn=resolveLocalWinsHLV removes=revision-cache-entry keyed-by=current-version", c.Pos(fn.Pos()), len(removes(fn)) > 0, "the resolving node drops its stale entry", "the resolving node no longer drops the revision-cache entry of the version whose history it rewrites")
+	}
+	// other nodes, via the mutation feed
+	fn := c.Func("(*db.changeCache).DocChanged")
+	if fn == nil {
+		r.Fail("C06-R4", "anchor (*db.changeCache).DocChanged", "-", "function not found")
+		return
+	}
+	flag := int64(-1)
+	if k, ok := c.SSAPkg["channels"].Pkg.Scope().Lookup("UnchangedCV").(*types.Const); ok {
+		flag, _ = constantInt64(k)
+	}
+	if flag < 0 {
+		r.Fail("C06-R4", "anchor channels.UnchangedCV", "-", "constant not found")
+		return
+	}
+	edges := EdgesWhere(fn, func(cond ssa.Value) (bool, bool) {
+		b, ok := cond.(*ssa.BinOp)
+		if !ok || (b.Op != token.NEQ && b.Op != token.EQL) {
+			return false, false
+		}
+		and, ok := b.X.(*ssa.BinOp)
+		if !ok || and.Op != token.AND {
+			return false, false
+		}
+		if k, isK := constInt(and.Y); !isK || k != flag {
+			if k2, isK2 := constInt(and.X); !isK2 || k2 != flag {
+				return false, false
+			}
+		}
+		if z, isZ := constInt(b.Y); !isZ || z != 0 {
+			return false, false
+		}
+		return true, b.Op == token.NEQ
+	})
+	rm := removes(fn)
+	ok := len(edges) > 0 && len(rm) > 0
+	if ok {
+		// on the flag's edge, every path to the forwarding of the change passes the removal
+		fwd := c.Calls(fn, false, nameIs("(*db.changeCache).processEntry"))
+		var rmI []ssa.Instruction
+		for _, x := range rm {
+			rmI = append(rmI, x)
+		}
+		for _, e := range edges {
+			for _, f := range fwd {
+				if ReachFrom(e.To(), 0, func(in ssa.Instruction) bool { return in == ssa.Instruction(f) }, NewAvoid().AddInstr(rmI...)) != nil {
+					ok = false
+				}
+			}
+		}
+	}
+	r.Check("C06-R4", "fn=(*db.changeCache).DocChanged unchanged-cv-mutation removes=revision-cache-entry keyed-by=current-version before=forwarding", c.Pos(fn.Pos()), ok,
+		"other nodes drop the entry of the version whose history was rewritten", "a mutation that keeps the current version but rewrites its history (local-wins resolution on another node) no longer evicts the revision-cache entry keyed by that version: this node keeps serving and pushing the pre-resolution revision, the peer answers 409 and the databases stay different")
 }
